@@ -103,7 +103,9 @@ STR_CLASSES = {
 # "has_empty" ('' is indistinguishable from a missing entry in CSV and comes back as 'nan') and "edge_space"
 # (leading / trailing blanks are stripped by the ascii formats) are at the edge of "clearly non-numeric text ...
 # preserved up to the format's encoding": they are kept out of the generated domain rather than judged.
-STR_WEIGHTS = ["shared_prefix"] * 2 + ["all_same"] + ["object"] + ["plain"] * 6 + ["inner_space"] * 3 + ["comma"] * 2 + ["quote"] * 2 + ["na_like"] * 2 + ["non_ascii"]
+# object-dtype text and dask-backed columns are at the edge of "float, integer and clearly non-numeric string columns"
+# (the exporters refuse them loudly); they are kept out of the generated domain rather than judged.
+STR_WEIGHTS = ["shared_prefix"] * 2 + ["all_same"] + ["plain"] * 6 + ["inner_space"] * 3 + ["comma"] * 2 + ["quote"] * 2 + ["na_like"] * 2 + ["non_ascii"]
 
 
 BE_KINDS = {"f64be": ("f64", ">f8"), "f32be": ("f32", ">f4"), "i32be": ("i32", ">i4"), "i16be": ("i16", ">i2")}
@@ -272,7 +274,7 @@ def gen_table(rng, ctx=None, index=None):
         src = floats[0]
         d.add_component_link(d.id[src[0]] * 2 + 1, names[ncol])
         cols.append([names[ncol], "derived", src[2] * 2 + 1])
-    if not many and rng.random() < 0.06:
+    if False and not many and rng.random() < 0.06:   # dask-backed columns: out of the stated domain, see STR_WEIGHTS note
         import dask.array as da
         from glue.core.component import DaskComponent
         vals = np.array([round(rng.uniform(-5, 5), 3) for _ in range(n)])
